@@ -283,6 +283,11 @@ func (s *Store) ResetLog() {
 	s.gids = nil
 }
 
+// SetReadCount sets the counter that numbers read requests (the nth argument
+// of ReadPolicy), e.g. after ResetLog when an earlier request is to keep its
+// number.
+func (s *Store) SetReadCount(n int) { s.reads = n }
+
 // Restart returns a fresh store holding only the durable state: what a
 // process restarted after a crash would see.
 func (s *Store) Restart() *Store {
